@@ -170,6 +170,31 @@ func C17(c *fw.Ctx) {
 			}
 		}
 	}
+	// সর্বনিম্ন / সর্বোচ্চ on every list of three values over a sub-alphabet of twelve (every kind, NaN, a huge
+	// number, a shared array), as three arguments and as one array argument: every value must be a number
+	// wherever it stands and whatever stands before it
+	{
+		var sub []operand
+		for _, o := range c02Operands() {
+			switch o.Name {
+			case "nil", "0", "-1", "0.5", "2", "2^63", "NaN", `"a"`, "[1]", "AA", "{k:1}", "uf":
+				sub = append(sub, o)
+			}
+		}
+		for _, name := range []string{model.BiMin, model.BiMax} {
+			for _, x := range sub {
+				for _, y := range sub {
+					for _, z := range sub {
+						if !c.Mine() {
+							continue
+						}
+						builtinCase(c, name, []*model.N{x.Mk(), y.Mk(), z.Mk()}, "minmax-three|list|"+name, false, "", nil, 0, 0)
+						builtinCase(c, name, []*model.N{model.Arr(x.Mk(), y.Mk(), z.Mk())}, "minmax-three|array|"+name, false, "", nil, 0, 0)
+					}
+				}
+			}
+		}
+	}
 	if !c.Quick() {
 		// every built-in on every argument list of length 1 and 2 over the whole operand alphabet of C02
 		// (all kinds, boundary magnitudes, integer-typed results, shared containers), of length 3 too, and of length 4 over a
